@@ -89,3 +89,8 @@ add('C01', 'exploration', 'transcript monitor (bit-exact caller-side vs replacem
     'Corpora of generated signatures (0-20 parameters, 0-6 results over 35 types, variadic tails; one corpus from seed 0 and one from VERIF_SEED, never committed) are compiled per run; every target is mocked by a typed closure and by stubbed returns and called through 7 call forms with boundary-value tuples, between forced collections and on fresh goroutines under deep recursion; the replacement logs what it receives and the monitor compares encodings, hit counts of the original body and results; the closure whose address the entry jump embeds carries a finalizer that must not fire. Signature/value space sampled; the evidence lists the ABI classes reached.',
     'Values are compared by canonical encoding captured inside the call; results of defer/go forms are discarded by Go and not compared.',
     'DESIGN.md 2 C01')
+
+add('C11', 'exploration', 'Go race detector + result/isolation/image monitors under a page-sharing mocker/caller stress workload',
+    'A race-instrumented build runs 2-12 mocker goroutines (own builders, disjoint targets) against 2-24 caller goroutines on steadily mocked, page-sharing functions for several rounds and processes; race reports are collected from the detector log and de-duplicated, every steady call and every mocker-side effect is checked, and the whole image must be pristine at quiescence; the workload is repeated on a plain build at higher speed. Schedules are sampled; the evidence counts steady calls that began while a writer was inside goom.',
+    'Steady callbacks that call the origin placeholder return origin|marker so that the recorded C03 re-entry finding cannot surface here; schedules are those 16 cores produce.',
+    'DESIGN.md 2 C11')
